@@ -184,7 +184,9 @@ class Inference:
                 prep = ent["prep"]
                 allowed = np.array(sorted(own(ti) for ti in e["fm_inputs"]) + [E.CONST], dtype=np.int64)
                 start = mem
-                ref = NpuRun(prep, start.clone(), None, E.SEQUENTIAL, ent["uid_base"], allowed)
+                t1 = ent.get("t1")
+                self.stats["t1_streams"] = self.stats.get("t1_streams", 0) + int(t1 is not None)
+                ref = NpuRun(prep, start.clone(), None, E.SEQUENTIAL, ent["uid_base"], allowed, t1)
                 ref.track_dead_stores = True
                 ref.was_read = {}
                 ref.run()
@@ -207,6 +209,7 @@ class Inference:
                 if not ref.stopped and not ref.deadlock:
                     self.v(prop="C06", oracle="no_stop", op=op.idx)
                 for pi, pol in enumerate(self.policies):
+                    # (tensor identity is judged in program order only: under a schedule a different writer already is a reads-from divergence)
                     run = NpuRun(prep, start.clone(), self.rngs[pi], pol, ent["uid_base"], allowed).run()
                     self.stats["schedules"] += 1
                     self.stats["steps"] += run.steps
@@ -334,9 +337,56 @@ class NpuRun(E.Run):
     """Engine run with the runtime's ownership rule: a byte the NPU reads from the arena was written by this operator, or is
     owned by one of the operator's feature-map inputs, or is a constant."""
 
-    def __init__(self, prep, mem, rng, policy, uid_base, allowed):
+    def __init__(self, prep, mem, rng, policy, uid_base, allowed, t1=None):
         super().__init__(prep, mem, rng=rng, policy=policy, uid_base=uid_base)
         self.allowed = allowed
+        # T1 tensor identity (t1seam): which tensor the compiler believes each operation writes / reads
+        self.w_eid = None
+        if t1 is not None:
+            n = len(prep.prog)
+            self.w_eid = np.zeros(n, np.int64)
+            self.r_eid = {}
+            for i, r in enumerate(t1):
+                if r is None:
+                    continue
+                if r["k"] == "s":
+                    self.w_eid[i] = r["ofm"][0] if r["ofm"] else 0
+                    self.r_eid[(i, "ifm")] = (r["ifm"][0] if r["ifm"] else 0, r["ifm"][1] if r["ifm"] else None)
+                    self.r_eid[(i, "ifm2")] = (r["ifm2"][0] if r["ifm2"] else 0, r["ifm2"][1] if r["ifm2"] else None)
+                else:
+                    self.w_eid[i] = r["dst"][0] if r["dst"] else 0
+                    # a DMA moves bytes without consuming them and legitimately over-copies up to the next 16-byte multiple: its
+                    # source is not identity-checked (what it wrote is, when a kernel operation reads it)
+            self.w_set = set(int(x) for x in self.w_eid if x)
+            self.names = {}
+            for r in t1:
+                if r is not None:
+                    for kk in ("ifm", "ifm2", "ofm", "src", "dst"):
+                        if r.get(kk):
+                            self.names[r[kk][0]] = r[kk][1]
+
+    def _ident(self, op, what, region, addrs, t):
+        """A byte that an earlier operation of this stream wrote must have been written as (part of) the very tensor the reading
+        operation believes it is reading: otherwise another tensor was placed over / written through a live one."""
+        if self.w_eid is None or not len(t):
+            return
+        want = self.r_eid.get((op.idx, what))
+        # only tensors some operation of this stream writes under that very identity: a tensor nobody writes as such is a view
+        # the compiler created when it bypassed a memory-only operator, and carries the producer's bytes by design
+        if want is None or not want[0] or want[0] not in self.w_set:
+            return
+        w = (t >> 20) - self.uid_base
+        mine = (t >= 0) & (w >= 0) & (w < len(self.w_eid))
+        if not mine.any():
+            return
+        we = np.zeros(len(t), np.int64)
+        we[mine] = self.w_eid[w[mine]]
+        bad = mine & (we != 0) & (we != want[0])
+        if bad.any() and not any(v.get("oracle") == "foreign_tensor_read" and v.get("op") == op.idx for v in self.viol):
+            i = int(np.argmax(bad))
+            self.viol.append(E.Violation(prop="C03", oracle="foreign_tensor_read", op=op.idx, what=what, region=region, addr=int(addrs[i]),
+                                         n_bytes=int(bad.sum()), expected_tensor=want[1], written_as=self.names.get(int(we[i])),
+                                         writer_op=int(w[i])))
 
     def _bad_mask(self, t):
         neg = t < 0
